@@ -17,6 +17,11 @@ def run(tier):
     for which in range(5):  # 0 to_bits, 1 to_bytes, 2 to_string, 3 bytes(), 4 str()
         conds.append(Cond("h_value.py", "views_match", to, twin="reach" if which in (1, 2) else None, path_timeout=to / 2,
                           env=dict(base, H_WHICH=str(which))))
+    # three-leaf sequences with a bit run between two valued leaves (quick tier: leaf sequence fixed per condition)
+    for kinds in ("0,2,0", "0,3,0", "1,2,0", "0,2,1", "2,0,2"):
+        for which in (1, 2):
+            conds.append(Cond("h_value.py", "views_match", to, path_timeout=to / 2, env=dict(base, H_WHICH=str(which), H_KINDS=kinds, H_ITEMS="3")))
+    conds.append(Cond("h_value.py", "views_match", to, path_timeout=to / 2, env=dict(base, H_WHICH="5")))  # int() of bit-only trees
     for first in range(3):
         conds.append(Cond("h_value.py", "order_independent", to, path_timeout=to / 2,
                           env={"H_ITEMS": "2" if q else "3", "H_ORDER": "2" if q else "3", "H_FIRST": str(first)}))
@@ -30,7 +35,7 @@ def run(tier):
                   "nesting": "flat, or the flat leaf list cut into two sibling subtrees (second one nested one level deeper) "
                              + ("at every position" if not q else "after the first leaf / inside the first bit run / before the last leaf / at the end"),
                   "request orders": "first request fixed per condition (bits/bytes/string), later requests symbolic, on the tree and on one shared TreeValue"}
-    run.outside = ["int() views (defined only for digit strings)", "longer leaf sequences / other contents", "SliceTree values"]
+    run.outside = ["int() views of trees with text/bytes leaves (defined only for digit strings)", "longer leaf sequences / other contents", "SliceTree values"]
     run.assumptions = ["finite content alphabets: str.encode and format() realise symbolic contents, so the engine exhausts the stated "
                        "alphabets by path splitting", "oracle written from the property text (harness/h_value.py ref_*)",
                        "CrossHair + plug-in conformance gate; z3 5.1"]
